@@ -25,10 +25,16 @@ EXPLANATION = ('dump_scalar is symbolically executed for every value kind on sha
 
 
 def task_names(tier):
-    return ['scalars:2.0', 'scalars:3.0', 'document']
+    return ['scalars:2.0', 'scalars:3.0', 'document', 'dumper']
 
 
 def run_task(name, tier):
+    if name == 'dumper':
+        # hszinc.dump(): one grid / a list of n grids (C02's framing task: parser.parse and dumper.dump shaping)
+        from props import C02
+        r = C02.run_task('framing', tier)
+        r['task'] = name
+        return r
     T = Task(name)
     parts = name.split(':')
     globals()['t_' + parts[0]](T, tier, *parts[1:])
